@@ -49,7 +49,10 @@ PLAN = dict(
     build=["c16"],
     mc=[dict(module="MC_Ownership", cfg_quick="MC_Ownership_quick.cfg", cfg_thorough="MC_Ownership.cfg",
              workers=6, timeout_quick=900, timeout_thorough=5400, xmx="12g",
-             may_be_unused=["A_StreamExport", "A_StreamNext"])],   # off in the quick model, explored in thorough and GEN
+             may_be_unused=["A_StreamExport", "A_StreamNext"]),    # off in the quick model, explored in thorough and GEN
+        # all histories of 4 handle slots over 2 regions (every drop order of 4 references)
+        dict(module="MC_Ownership", cfg="MC_Ownership_4h.cfg", tiers=("thorough",), workers=6, timeout=5400, xmx="12g",
+             may_be_unused=["A_StreamExport", "A_StreamNext"])],
     drive=[dict(bin="c16", args=["c16"], timeout=1800)],
     tv=[
         dict(glob="own-*.ndjson", module="Trace_Ownership", cfg="Trace_Ownership.cfg", stateful=True, reset_ops=["reset"],
